@@ -220,5 +220,16 @@ theorem offsetTemp_toUnitV [RPow K] (u : TU K) :
   simp only [offsetTemp, toUnitV, h, onOffsetScale]
   simp
 
+/-- the rescaling block refuses only with `InvalidUnitOperation` -/
+theorem convSecond_error {tab : TTable K} {u0 u1 : TU K} {e : Err}
+    (h : convSecond tab u0 u1 = .error e) : e = .InvalidUnitOperation := by
+  unfold convSecond at h
+  split at h
+  · cases h
+  · simp only at h
+    split at h
+    · cases h; rfl
+    · cases h
+
 end
 end Unyt.Temp
